@@ -10,7 +10,7 @@ package hack
 //@ pure func decl(S seq[byte]) int = S[3]*256 + S[4]
 //@ pure func complete(S seq[byte]) bool = hdrOK(S) && len(S) >= 5+decl(S)
 
-//@ globalinv [C04,C01:sentinel-error-set] ErrIncompleteClientHello != nil
+//@ globalinv [C04,C01,C02:sentinel-error-set] ErrIncompleteClientHello != nil
 
 //@ -- Representation invariant. winv is the weaker form that holds between the
 //@ -- append in hijackClientHello and the truncation in hasCompleteClientHello.
@@ -23,46 +23,46 @@ package hack
 //@   assigns nothing
 
 //@ func (*HijackClientHelloConn).hasCompleteClientHello
-//@   props C04,C10,C01
+//@   props C04,C10,C01,C02
 //@   requires c != nil && c.expectedLen >= 0
 //@   assigns c.buf.view
-//@   ensures [C04,C01:complete-iff] result <==> (c.expectedLen != 0 && len(old(c.buf.view)) != 0 && len(old(c.buf.view)) >= c.expectedLen)
-//@   ensures [C04,C01:truncates-to-expected] result ==> c.buf.view == old(c.buf.view)[:c.expectedLen]
-//@   ensures [C04,C01:untouched-when-incomplete] !result ==> c.buf.view == old(c.buf.view)
+//@   ensures [C04,C01,C02:complete-iff] result <==> (c.expectedLen != 0 && len(old(c.buf.view)) != 0 && len(old(c.buf.view)) >= c.expectedLen)
+//@   ensures [C04,C01,C02:truncates-to-expected] result ==> c.buf.view == old(c.buf.view)[:c.expectedLen]
+//@   ensures [C04,C01,C02:untouched-when-incomplete] !result ==> c.buf.view == old(c.buf.view)
 
 //@ func (*HijackClientHelloConn).tryParseClientHello
-//@   props C04,C10,C01
+//@   props C04,C10,C01,C02
 //@   requires c != nil && winv(c)
 //@   assigns c.buf.view, c.expectedLen
-//@   ensures [C04,C01:inv] inv(c)
-//@   ensures [C04,C01:nil-iff-complete] result == nil <==> complete(delivered(c.tlsConn))
-//@   ensures [C04,C01:exact] result == nil ==> c.buf.view == delivered(c.tlsConn)[:5+decl(delivered(c.tlsConn))]
+//@   ensures [C04,C01,C02:inv] inv(c)
+//@   ensures [C04,C01,C02:nil-iff-complete] result == nil <==> complete(delivered(c.tlsConn))
+//@   ensures [C04,C01,C02:exact] result == nil ==> c.buf.view == delivered(c.tlsConn)[:5+decl(delivered(c.tlsConn))]
 
 //@ func (*HijackClientHelloConn).hijackClientHello
 //@   inline
 
 //@ func (*HijackClientHelloConn).GetClientHello :: c -> rec, err
-//@   props C04,C10,C01
+//@   props C04,C10,C01,C02
 //@   requires c != nil && inv(c)
 //@   assigns c.buf.view, c.expectedLen
-//@   ensures [C04,C01:inv] inv(c)
-//@   ensures [C04,C01:reported-iff-complete] err == nil <==> complete(delivered(c.tlsConn))
-//@   ensures [C04,C01:exact] err == nil ==> rec == delivered(c.tlsConn)[:5+decl(delivered(c.tlsConn))]
-//@   ensures [C04,C01:nothing-on-error] err != nil ==> len(rec) == 0
+//@   ensures [C04,C01,C02:inv] inv(c)
+//@   ensures [C04,C01,C02:reported-iff-complete] err == nil <==> complete(delivered(c.tlsConn))
+//@   ensures [C04,C01,C02:exact] err == nil ==> rec == delivered(c.tlsConn)[:5+decl(delivered(c.tlsConn))]
+//@   ensures [C04,C01,C02:nothing-on-error] err != nil ==> len(rec) == 0
 
 //@ func (*HijackClientHelloConn).Read :: c, b -> n, err
-//@   props C04,C10,C01
+//@   props C04,C10,C01,C02
 //@   requires c != nil && inv(c)
 //@   assigns post(b), delivered(c.tlsConn), c.buf.view, c.expectedLen
-//@   ensures [C04,C01:inv] inv(c)
-//@   ensures [C04,C01:transparent] 0 <= n && n <= len(b) && delivered(c.tlsConn) == old(delivered(c.tlsConn)) ++ post(b)[:n]
-//@   ensures [C04,C01:error-delivers-nothing] err != nil ==> n == 0 && delivered(c.tlsConn) == old(delivered(c.tlsConn))
+//@   ensures [C04,C01,C02:inv] inv(c)
+//@   ensures [C04,C01,C02:transparent] 0 <= n && n <= len(b) && delivered(c.tlsConn) == old(delivered(c.tlsConn)) ++ post(b)[:n]
+//@   ensures [C04,C01,C02:error-delivers-nothing] err != nil ==> n == 0 && delivered(c.tlsConn) == old(delivered(c.tlsConn))
 
 //@ func NewHijackClientHelloConn :: conn -> c
 //@   props C04,C06
 //@   assigns nothing
 //@   ensures [C06:fresh-wrapper] c != nil && fresh(c) && c.tlsConn == conn
-//@   ensures [C04,C01:starts-empty] c.expectedLen == 0 && len(c.buf.view) == 0
+//@   ensures [C04,C01,C02:starts-empty] c.expectedLen == 0 && len(c.buf.view) == 0
 
 //@ func (*ChannelListener).SendToChannel :: ln, conn
 //@   trusted
